@@ -83,6 +83,9 @@ def entries(tier):
     for mode in ("real", "imaginary"):
         E.append(("calculate_drt[tr-nnls,%s]" % mode, lambda d, mode=mode: pyimpspec.calculate_drt(d, method="tr-nnls", mode=mode), None))
     E.append(("calculate_drt[lm]", lambda d: pyimpspec.calculate_drt(d, method="lm", num_procs=1), None))
+    # the other ways of choosing the model order (each has its own assembly of the reported pseudo chi-squared)
+    E.append(("calculate_drt[lm,model_order_method=pseudo_chisqr]", lambda d: pyimpspec.calculate_drt(d, method="lm", model_order_method="pseudo_chisqr", num_procs=1), None))
+    E.append(("calculate_drt[lm,model_order=7]", lambda d: pyimpspec.calculate_drt(d, method="lm", model_order=7, num_procs=1), None))
     circ = parse_cdc("R{R=60}(R{R=150}C{C=1e-5})(R{R=300}Q{Y=1e-3,n=0.9})")
     E.append(("fit_circuit", lambda d, c=None: pyimpspec.fit_circuit(c, d, method="least_squares", weight="boukamp", max_nfev=200, num_procs=1), circ))
     E.append(("calculate_drt[mrq-fit]", lambda d, c=None: pyimpspec.calculate_drt(d, method="mrq-fit", circuit=c, max_nfev=100, num_procs=1), parse_cdc("R{R=60}(R{R=150}Q{Y=1e-5,n=0.95})(R{R=300}Q{Y=1e-3,n=0.9})")))
